@@ -435,6 +435,11 @@ func (o *Optimizer) OptimizeStatements(stmts []ast.Statement) []ast.Statement {
 			result = append(result, &s)
 
 		default:
+			// A statement this pass does not rewrite (e.g. a value-form node)
+			// still executes: forget what it may overwrite
+			for varName := range getModifiedVariables([]ast.Statement{stmt}) {
+				o.forgetVariable(varName)
+			}
 			result = append(result, stmt)
 		}
 	}
@@ -884,10 +889,25 @@ func getModifiedVariablesInStmt(stmt ast.Statement, modified map[string]bool) {
 		for _, elseStmt := range s.ElseBlock {
 			getModifiedVariablesInStmt(elseStmt, modified)
 		}
+	case ast.IfStatement:
+		getModifiedVariablesInStmt(&s, modified)
 	case *ast.WhileStatement:
 		for _, bodyStmt := range s.Body {
 			getModifiedVariablesInStmt(bodyStmt, modified)
 		}
+	case ast.WhileStatement:
+		getModifiedVariablesInStmt(&s, modified)
+	case *ast.SwitchStatement:
+		for _, switchCase := range s.Cases {
+			for _, caseStmt := range switchCase.Body {
+				getModifiedVariablesInStmt(caseStmt, modified)
+			}
+		}
+		for _, defaultStmt := range s.Default {
+			getModifiedVariablesInStmt(defaultStmt, modified)
+		}
+	case ast.SwitchStatement:
+		getModifiedVariablesInStmt(&s, modified)
 	case *ast.ForStatement:
 		// Mark loop variables as modified
 		modified[s.ValueVar] = true
